@@ -119,8 +119,10 @@ func (r *runner) check(p *Prog, origin string, toCoq bool) {
 		r.distinct[body] = true
 		r.sum.DistinctNontrivial++
 	}
+	directFailure := false
 	// direct oracle, direction 1: an accepted program must have only linear paths
 	if v.Accepts() && or.Witness != nil {
+		directFailure = true
 		w := or.Witness
 		cls, _ := w.class()
 		// the known defect classes need a halt (loop re-invalidation) resp. a halt or return (jump paths)
@@ -138,11 +140,17 @@ func (r *runner) check(p *Prog, origin string, toCoq bool) {
 	}
 	// direction 2 (converse of the property): a program all of whose paths are linear must be accepted
 	if v.OnlyLinearity() && or.Witness == nil && or.Complete {
+		directFailure = true
 		cls := featureClass(feat)
 		r.fail("rejects-linear:"+cls,
 			fmt.Sprintf("the real checker REJECTS (%s) a program all of whose %d paths (loops 0..%d times) are linear\n%s",
 				v.String(), or.Paths, r.maxIter, body),
 			replay(map[string]any{"paths": or.Paths, "class": cls}))
+	}
+	// A direct failure may only be excused as a known finding when the faithful model predicts the real
+	// checker's verdict: every such program is also evaluated by the Coq model (a disagreement is a VIOLATION).
+	if directFailure {
+		toCoq = true
 	}
 	if toCoq {
 		r.cw.Add(fmt.Sprintf("(%s, %s, %s)", p.Coq(), v.Coq(), coqBool(or.Witness != nil)),
@@ -226,7 +234,7 @@ func main() {
 		coqRate int // 1/coqRate of the larger programs
 	}
 	plans := []plan{
-		{famCore, 5, 3, 25},
+		{famCore, 5, 3, 40},
 		{famRich, 3, 2, 8},
 		{famOpt, 3, 2, 10},
 		{famFun, 4, 2, 12},
@@ -250,8 +258,16 @@ func main() {
 		sum.Distribution[fmt.Sprintf("family %s (<=%d nodes) programs", pl.fam.Name, pl.size)] = n
 	}
 
+	// 2b. merge table: every combination of branch shapes at an if/else inside a loop (all of them go to the
+	//     real checker, the path oracle and the Coq model, in both tiers)
+	nmt := mergeTable(func(p *Prog, origin string) {
+		r.check(p, "mergetable", true)
+		_ = origin
+	})
+	sum.Distribution["family mergetable programs"] = nmt
+
 	// 3. random larger programs: mostly linear by construction, half of them with an injected edit
-	nrand := 1100
+	nrand := 800
 	if thorough {
 		nrand = 20000
 	}
